@@ -457,6 +457,11 @@ func runL1Sweep(r *rand.Rand) {
 							f = append(f, "cut-in-batch-header")
 						} else {
 							f = append(f, "cut-in-payload")
+							// the positions where the codec's reader ends WITHOUT an error on the truncated payload
+							// (regression: the batch was once taken for a complete one there, /repo 977b55d)
+							if _, derr := fetchfake.Decompress(codec, all[start+61:k]); derr == nil {
+								f = append(f, "codec-silent-end")
+							}
 						}
 						emitL1(ver, off, hwm, len(all), all[:k], false, enc.Blobs, f, logArg)
 					}
